@@ -20,6 +20,7 @@ UNIT = {
     'calls': {
         'm:@struct CommandSignature::isNull': '($o->value == 0)', 'm:@struct CommandSignature::operator basic::CommandSignature': '(*$o)',
         'm:@vstr::empty': '($o->len == 0)', 'm:@vstr::c_str': '((const char *)$o->ptr)', 'm:@vstr::data': '((const char *)$o->ptr)',
+        'm:@vec_strref::size': 'vec_strref_size', 'm:@vec_vstr::size': 'vec_vstr_size', 'm:@vec_pair::size': 'vec_pair_size', 'm:@vec_node::size': 'vec_node_size',
         'range:@vec_strref': ('vec_strref_size', 'vec_strref_at'), 'range:@vec_vstr': ('vec_vstr_size', 'vec_vstr_at'),
         'range:@vec_pair': ('vec_pair_size', 'vec_pair_at'), 'range:@vec_node': ('vec_node_size', 'vec_node_at'),
         'c:CommandSignature(uint64_t)': 'sig_make', 'c:CommandSignature(StringRef)': 'sig_of_name',
@@ -38,12 +39,12 @@ UNIT = {
             'ensures': [('P:C09', 'RESULT.value != 0'),                                          # the null signature is never handed out
                         ('P:C09', 'OLD(self->cachedSignature.value) != 0 ==> (RESULT.value == OLD(self->cachedSignature.value) && g_items == 0)'),
                         ('P:C09', '(OLD(self->cachedSignature.value) == 0 && self->signatureData.len != 0) ==> g_items == 1'),   # explicit signature replaces the walk
-                        # every argument, both halves of every environment entry, every deps path and the three scalars are fed, once each
-                        ('P:C09', '(OLD(self->cachedSignature.value) == 0 && self->signatureData.len == 0) ==> g_items == self->args.len + 2 * self->env.len + self->depsPaths.len + 3'),
+                        # every argument, both halves of every environment entry, every deps path, the three list lengths and the three scalars are fed, once each
+                        ('P:C09', '(OLD(self->cachedSignature.value) == 0 && self->signatureData.len == 0) ==> g_items == self->args.len + 2 * self->env.len + self->depsPaths.len + 3 + 3'),   # + the three list lengths
                         ('P:C09', 'self->cachedSignature.value == RESULT.value')],
-            'loops': {0: {'assigns': ['__i1', 'code', 'g_items', 'g_chain'], 'invariant': ['__i1 <= __range1->len && g_items == __i1'], 'decreases': '__range1->len - __i1'},
-                      1: {'assigns': ['__i2', 'code', 'g_items', 'g_chain'], 'invariant': ['__i2 <= __range2->len && g_items == self->args.len + 2 * __i2'], 'decreases': '__range2->len - __i2'},
-                      2: {'assigns': ['__i3', 'code', 'g_items', 'g_chain'], 'invariant': ['__i3 <= __range3->len && g_items == self->args.len + 2 * self->env.len + __i3'], 'decreases': '__range3->len - __i3'}},
+            'loops': {0: {'assigns': ['__i1', 'code', 'g_items', 'g_chain'], 'invariant': ['__i1 <= __range1->len && g_items == 1 + __i1'], 'decreases': '__range1->len - __i1'},
+                      1: {'assigns': ['__i2', 'code', 'g_items', 'g_chain'], 'invariant': ['__i2 <= __range2->len && g_items == 2 + self->args.len + 2 * __i2'], 'decreases': '__range2->len - __i2'},
+                      2: {'assigns': ['__i3', 'code', 'g_items', 'g_chain'], 'invariant': ['__i3 <= __range3->len && g_items == 3 + self->args.len + 2 * self->env.len + __i3'], 'decreases': '__range3->len - __i3'}},
         },
     },
 }
